@@ -51,12 +51,18 @@ type Sched struct {
 	OnStep  func(p *Proc, reached *Point, finished bool)
 	Blocked func(p *Proc, at *Point) bool
 	Timeout time.Duration
-	// PCT-style priorities: when > 0, choose by priority with this many random priority change points
+	// Stick is the probability of releasing the same process again when the schedule is chosen at random: uniform choice
+	// (0) switches at almost every step, so windows that need one process to run a whole call while another is parked
+	// mid-call are practically never hit; real schedulers run in bursts.  New draws it from the seed.
+	Stick float64
+	last  *Proc
 	Trace []string // names of the processes in the order they were released
 }
 
 func New(seed int64) *Sched {
-	return &Sched{byGid: map[int64]*Proc{}, notify: make(chan *Proc, 64), rnd: rand.New(rand.NewSource(seed)), Timeout: 20 * time.Second}
+	s := &Sched{byGid: map[int64]*Proc{}, notify: make(chan *Proc, 64), rnd: rand.New(rand.NewSource(seed)), Timeout: 20 * time.Second}
+	s.Stick = []float64{0, 0.5, 0.8, 0.9, 0.95}[s.rnd.Intn(5)]
+	return s
 }
 
 func goid() int64 {
@@ -170,9 +176,17 @@ func (s *Sched) Run() error {
 				}
 			}
 		}
+		if next == nil && s.last != nil && s.Stick > 0 && s.rnd.Float64() < s.Stick {
+			for _, p := range elig {
+				if p == s.last {
+					next = p
+				}
+			}
+		}
 		if next == nil {
 			next = elig[s.rnd.Intn(len(elig))]
 		}
+		s.last = next
 		s.Trace = append(s.Trace, next.Name)
 		next.Steps++
 		next.resume <- struct{}{}
